@@ -37,16 +37,27 @@ def meshP (kind : Kind) (dim : Nat) (withVerts : Bool) : P Mesh := do
   let data ← idxDataP kind dim nums
   pure { kind := kind, dim := dim, nums := nums, verts := verts, idxData := data }
 
-def partP (kind : Kind) (dim : Nat) : P Part := do
-  let _ ← tok   -- "m" (mesh part) or "h" (halo): both are refined by the same StandardRefinery<MeshPart>
+/-- one part: `<m|h> <topo> targets [topology] <nattr> [values] <nchildren>`; returns the part and its child count -/
+def partP (kind : Kind) (dim : Nat) : P (Part × Nat) := do
+  let _ ← tok   -- "m" (mesh part in the node tree) or "h" (halo): the same StandardRefinery<MeshPart> in the end
   let topo ← nat
   let targets ← many (dim + 1) natList
-  if topo = 0 then
-    pure { targets := targets, topo := none }
-  else
-    let nums := targets.map List.length
-    let data ← idxDataP kind dim nums
-    pure { targets := targets, topo := some { kind := kind, dim := dim, nums := nums, verts := [], idxData := data } }
+  let tp ← if topo = 0 then pure none
+    else do
+      let nums := targets.map List.length
+      let data ← idxDataP kind dim nums
+      pure (some { kind := kind, dim := dim, nums := nums, verts := [], idxData := data : Mesh })
+  let na ← nat
+  let attr ← if na = 0 then pure none else do
+    let v ← many ((targets.getD 0 []).length) rat
+    pure (some v)
+  let nc ← nat
+  pure ({ targets := targets, topo := tp, attr := attr }, nc)
+
+def nodeP (kind : Kind) (dim : Nat) : P PartNode := do
+  let (p, nc) ← partP kind dim
+  let cs ← many nc (partP kind dim)
+  pure { part := p, children := cs.map (·.1) }
 
 def showIdx (M : Mesh) : String :=
   showNats ((List.range' 1 M.dim).flatMap fun c => (List.range c).flatMap fun f => (M.idx c f).flatten)
@@ -55,22 +66,29 @@ def showInts (l : List Int) : String := " ".intercalate (l.map toString)
 
 def showPart (dim : Nat) (P : Part) : String :=
   let t := " ".intercalate ((List.range (dim + 1)).map fun d => showNatsL (P.target d))
+  let a := match P.attr with
+    | none => "A 0"
+    | some v => s!"A {showRatsL v}"
   match P.topo with
-  | none => s!"S {t}"
-  | some T => s!"T {t} {showIdx T}"
+  | none => s!"S {t} {a}"
+  | some T => s!"T {t} {showIdx T} {a}"
 
-def showLevel (M : Mesh) (parts : List Part) : Option String :=
+def showNode (dim : Nat) (n : PartNode) : String :=
+  let cs := " ".intercalate (n.children.map fun c => s!"{showPart dim c} C 0")
+  s!"{showPart dim n.part} C {n.children.length} {cs}"
+
+def showLevel (M : Mesh) (parts : List PartNode) : Option String :=
   match neighbors M with
   | none => none
   | some nb =>
     let b := " ".intercalate ((boundary M).map showNatsL)
-    let ps := " ".intercalate (parts.map (showPart M.dim))
+    let ps := " ".intercalate (parts.map (showNode M.dim))
     some s!"L {showNats M.nums} V {showRats M.verts.flatten} I {showIdx M} N {showInts nb.flatten} B {b} P {parts.length} {ps}"
 
-def levels : Nat → Mesh → List Part → List String → Option (List String)
+def levels : Nat → Mesh → List PartNode → List String → Option (List String)
   | 0, _, _, acc => some acc
   | d + 1, M, parts, acc =>
-    let ps := parts.map (refinePart M)
+    let ps := parts.map (refineNode M)
     if ps.any Option.isNone then none
     else
       let M' := refine M
@@ -86,7 +104,7 @@ def handle : P String := do
     let kind ← kindP; let dim ← nat; let depth ← nat
     let M ← meshP kind dim true
     let np ← nat
-    let parts ← many np (partP kind dim)
+    let parts ← many np (nodeP kind dim)
     match levels depth M parts [] with
     | none => pure "ABORT"
     | some ls => pure (" ".intercalate ls)
